@@ -109,6 +109,8 @@ def replay(d):
 
 def check(run):
     run.deductive(MODULES)
+    from checks import crosscheck
+    crosscheck.bounded_part(run, ["contracts.matcher", "contracts.comparator"], ["SyntheticRuleMatcher.exit_strategy_solution"])
     run.trust("RDKit: MolFromSmiles / atom symbols / total H counts / formal charges define the 'true composition' (specs/chem.py)")
     run.assume("completeness of the search (that a completion is found whenever one exists) is not part of the property")
 
